@@ -122,6 +122,24 @@ func TestVerifC01(t *testing.T) {
 		}
 		op("car "+hex.EncodeToString(ge.CarData), fmt.Sprintf("car hdr=%d objs=%d blocks=%d txs=%d build=ok", ge.HdrLen, len(ge.Objs), nBlocks, nTx), true)
 		s.Add("objects", len(ge.Objs))
+		// the sealed index files themselves, byte for byte against the model's files
+		if len(ge.Objs) <= 6000 {
+			for _, f := range []struct{ which, path string }{{"cid", le.Paths.CidToOffsetAndSize}, {"slot", le.Paths.SlotToCid}, {"sig", le.Paths.SignatureToCid}} {
+				data, err := os.ReadFile(f.path)
+				if err != nil {
+					viol("index file missing: "+err.Error(), "C01:index-file-missing")
+					continue
+				}
+				op("idx "+f.which+" "+hex.EncodeToString(data), "identical", true)
+				s.Count("index-files-compared")
+			}
+			if len(ge.Objs) <= 400 {
+				if data, err := os.ReadFile(le.Paths.SignatureExists); err == nil {
+					op("idx sigexists "+hex.EncodeToString(data), "identical", true)
+					s.Count("sigexists-files-compared")
+				}
+			}
+		}
 		for _, ob := range ge.Objs {
 			w := 1
 			if ob.SecLen-uint64(len(ob.Data))-36 == 2 {
